@@ -2,7 +2,8 @@
 Model: MC_Eval_c07 - formulas mixing assignments, reads, commas, arrays, calls and conditionals over $a, $b, x, y.k against
 two data maps holding caller-owned decimals; invariant Frame on the specification (evaluation only adds or changes "$"
 entries).  Replay compares value, host-call log (left-to-right order) and the data map afterwards, and the driver takes a
-deep snapshot (pointer identities, digits of every reachable number) of the caller's map before and after."""
+deep snapshot (pointer identities, digits of every reachable number) of the caller's map before and after.
+MC_Runner (one runner): every history of <= 4 operations, so that bindings are observed by later evaluations of the same runner."""
 from checks.evalcheck import run_family
 
 def run(ctx):
@@ -14,6 +15,10 @@ def run(ctx):
     # operator cells, member access, calls) given its children's observed results
     nd = ctx.record("nodes-random", "nodes", ["-n", 6000 if ctx.thorough else 600, "-seed", ctx.seed * 100 + 57])
     ctx.validate("nodes-random-validate", "trace/Trace_Nodes.tla", "trace/Trace_Nodes.cfg", nd, "nodes", shards=1)
+    # "a later evaluation by the same runner sees the binding": every history of one runner (with and without a data map,
+    # bindings made before a failure, arrays rebound to arrays) over the runner model, replayed step by step
+    r = ctx.tlc("runner-1x", "mc/MC_Runner.tla", "mc/MC_Runner.cfg", {"N": 5 if ctx.thorough else 4, "Runners": '{"r1"}'}, min_states=60000, timeout=3400, heap="14g")
+    ctx.replay("runner-1x-replay", "runner", r["dump"], min_cases=60000)
     return ctx.finish(
         rule="every formula of the family x 2 data maps evaluated by the real evaluator; compared: value, error, host-call log, "
              "data map afterwards; deep snapshot of the caller's data before/after; plus seeded random programs (depth <= 4, all operators / builtins / value kinds) validated by the trace specification; non-trivial = pinned cases",
